@@ -112,6 +112,7 @@ c('yo_to_cycle', U, requires="year_mod_400 < 400, 1 <= ordinal <= 366", ensures=
 c('cycle_to_yo', U, requires="cycle < 146097",
   ensures="r.0 < 400, 1 <= r.1 <= year_len(r.0 as int), cyc(r.0 as int, r.1 as int) == cycle as int")
 c('NaiveDate::from_num_days_from_ce_opt', U, ensures=date_move("days as int"))
+c('NaiveDate::from_num_days_from_ce', U, requires=RANGE.format(e="days as int"), ensures="dwf(r), dn(r) == days as int")     # deprecated panicking form
 c('NaiveDate::num_days_from_ce', U, requires="dwf(*self)", ensures="r as int == dn(*self)")
 c('NaiveDate::Datelike__num_days_from_ce', U, requires="dwf(*self)", ensures="r as int == dn(*self)")
 c('NaiveDate::add_days', U, requires="dwf(self)", ensures=date_move("dn(self) + days as int"))
@@ -146,6 +147,15 @@ c('NaiveTime::from_hms_nano_opt', U, ensures=hms_ctor("nano as int"))
 c('NaiveTime::from_num_seconds_from_midnight_opt', U,
   ensures="r.is_some() <==> (secs < 86400 && (nano < 1_000_000_000 || (nano < 2_000_000_000 && secs % 60 == 59))), "
           "r.is_some() ==> twf(r.unwrap()) && r.unwrap().secs == secs && r.unwrap().frac == nano")
+# deprecated panicking constructors: documented to panic on invalid input = precondition; otherwise the value of the checked form
+def hms_pan(nano_expr, extra=''):
+    return dict(requires="hms_ok(hour as int, min as int, sec as int, %s)%s" % (nano_expr, extra),
+                ensures="twf(r) && r.secs as int == hour as int * 3600 + min as int * 60 + sec as int && r.frac as int == %s" % nano_expr)
+c('NaiveTime::from_hms', U, **hms_pan("0int"))
+c('NaiveTime::from_hms_milli', U, **hms_pan("milli as int * 1_000_000"))
+c('NaiveTime::from_hms_micro', U, **hms_pan("micro as int * 1_000"))
+c('NaiveTime::from_hms_nano', U, **hms_pan("nano as int"))
+c('NaiveTime::from_num_seconds_from_midnight', U, requires="secs < 86400 && (nano < 1_000_000_000 || (nano < 2_000_000_000 && secs % 60 == 59))", ensures="twf(r) && r.secs == secs && r.frac == nano")
 c('NaiveTime::hms', U, requires="twf(*self)", ensures="r.0 == self.secs / 3600, r.1 == (self.secs / 60) % 60, r.2 == self.secs % 60, r.0 < 24, r.1 < 60, r.2 < 60, r.0 * 3600 + r.1 * 60 + r.2 == self.secs")
 c('NaiveTime::num_seconds_from_midnight', U, ensures="r == self.secs")
 c('NaiveTime::nanosecond', U, ensures="r == self.frac")
